@@ -589,14 +589,25 @@ func TestPropUniverse(t *testing.T) {
 		stride = 37
 	}
 	i := shard * stride
+	posList := []string{"dq", "sq", "partial", "unquoted"}
+	k := 0
 	evid.RunEnum(t, "universe", func() (Case, bool) {
 		if i >= total {
 			return Case{}, false
 		}
 		e, a := allElems[i/len(allAttrs)], allAttrs[i%len(allAttrs)]
+		if stride == 1 {
+			// thorough tier: every position for every pair
+			pos := posList[k]
+			k++
+			if k == len(posList) {
+				k = 0
+				i += n
+			}
+			return Case{Pos: pos, Elem: e, Attr: a}, true
+		}
 		i += n * stride
-		pos := []string{"dq", "sq", "partial", "unquoted"}[(i/7)%4]
-		return Case{Pos: pos, Elem: e, Attr: a}, true
+		return Case{Pos: posList[(i/7)%4], Elem: e, Attr: a}, true
 	}, check)
 	if stride == 1 {
 		evid.SetExhaustive("universe")
